@@ -244,6 +244,9 @@ pub fn name_pool() -> &'static [&'static str] {
     &[
         "", "a", "b", "x", "y", "id", "name", "value", "Foo", "Bar", "Baz", "Point", "Outer", "Inner", "Result<T, E>", "Range<T>", "käse", "名前", "🦀", "with space",
         "a_very_long_identifier_name_that_goes_on_and_on_0123456789", "r#type", "r#", "type", "abc", "A", "B", "C", "Alpha", "Beta", "Gamma", "Delta", "f0", "f1", "f2", "zeta", "eta", "Ok", "Err", "Key", "\u{0}",
+        // names that differ only in case, path-like names, raw-identifier spellings, names with syntax characters
+        "Kb", "KB", "kb", "Mb", "MB", "TYPE", "Type", "r#Move", "r#match", "r#a", "proto::v2::Header", "Header::", "::x", "a::b", "core::option::Option<T>", "\u{FEFF}bom", "<T>", "Vec<u8>",
+        "line\nbreak", "\"quoted\"", "{", "}", "a.b", "a/b", "#", "0", "-1", "null", "true",
     ]
 }
 
@@ -272,6 +275,39 @@ fn names(rng: &mut Rng, n: usize, unique: bool) -> Vec<Name> {
         out.push(c);
     }
     out
+}
+
+/// Wide tuples (7..40 elements - wider than any built-in tuple impl, like a flattened array or matrix) whose
+/// elements are of one kind but not identical, with equal first and last elements: anything that treats
+/// "long and uniform-looking" as "an array of the first element" shows here.
+fn wide_elements(rng: &mut Rng, d: u32, o: &SchemaOpts) -> Vec<Shape> {
+    let n = *rng.pick(&[7usize, 8, 9, 12, 16, 17, 18, 24, 33, 40]);
+    let d = d.min(1);
+    let first = gen_schema_shape(rng, d, o);
+    let style = rng.below(3);
+    (0..n)
+        .map(|i| {
+            if i == 0 || i + 1 == n || style == 0 {
+                return first.clone();
+            }
+            if style == 2 && rng.chance(1, 3) {
+                return gen_schema_shape(rng, d, o);
+            }
+            // same outer kind, different inside
+            match &first {
+                Shape::Option(_) => Shape::Option(Box::new(gen_schema_shape(rng, d, o))),
+                Shape::Seq(_) => Shape::Seq(Box::new(gen_schema_shape(rng, d, o))),
+                Shape::Map(..) => Shape::Map(Box::new(gen_schema_shape(rng, d, o)), Box::new(gen_schema_shape(rng, d, o))),
+                Shape::Tuple(_) => Shape::Tuple((0..rng.range(0, 3)).map(|_| gen_schema_shape(rng, 0, o)).collect()),
+                Shape::UnitStruct(x) if *x != SCHEMA_MARKER => Shape::UnitStruct(pick_name(rng)),
+                Shape::NewtypeStruct(..) => Shape::NewtypeStruct(pick_name(rng), Box::new(gen_schema_shape(rng, d, o))),
+                Shape::TupleStruct(..) => Shape::TupleStruct(pick_name(rng), (0..rng.range(0, 3)).map(|_| gen_schema_shape(rng, 0, o)).collect()),
+                Shape::Struct(_, fs) => Shape::Struct(pick_name(rng), fs.iter().map(|(_, _)| (pick_name(rng), gen_schema_shape(rng, 0, o))).collect()),
+                Shape::Enum(_, vs) => Shape::Enum(pick_name(rng), vs.iter().map(|v| VariantShape { name: pick_name(rng), data: v.data.clone() }).collect()),
+                _ => gen_schema_shape(rng, 0, o),
+            }
+        })
+        .collect()
 }
 
 /// Random schema tree over all 26 node kinds and 4 data kinds (as a Shape with the Schema marker).
@@ -313,15 +349,23 @@ pub fn gen_schema_shape(rng: &mut Rng, depth: u32, o: &SchemaOpts) -> Shape {
         0 => Shape::Option(Box::new(gen_schema_shape(rng, d, o))),
         1 => Shape::Seq(Box::new(gen_schema_shape(rng, d, o))),
         2 => {
-            let n = fan(rng);
-            Shape::Tuple((0..n).map(|_| gen_schema_shape(rng, d, o)).collect())
+            if rng.chance(1, 6) {
+                Shape::Tuple(wide_elements(rng, d, o))
+            } else {
+                let n = fan(rng);
+                Shape::Tuple((0..n).map(|_| gen_schema_shape(rng, d, o)).collect())
+            }
         }
         3 => Shape::Map(Box::new(gen_schema_shape(rng, d, o)), Box::new(gen_schema_shape(rng, d, o))),
         4 => Shape::UnitStruct(pick_name(rng)),
         5 => Shape::NewtypeStruct(pick_name(rng), Box::new(gen_schema_shape(rng, d, o))),
         6 => {
-            let n = fan(rng);
-            Shape::TupleStruct(pick_name(rng), (0..n).map(|_| gen_schema_shape(rng, d, o)).collect())
+            if rng.chance(1, 8) {
+                Shape::TupleStruct(pick_name(rng), wide_elements(rng, d, o))
+            } else {
+                let n = fan(rng);
+                Shape::TupleStruct(pick_name(rng), (0..n).map(|_| gen_schema_shape(rng, d, o)).collect())
+            }
         }
         7 | 8 => {
             let n = fan(rng);
